@@ -75,9 +75,17 @@ class C20(F.Check):
             mod = importlib.import_module("auverif.props." + d)
             donor = mod.CHECK(self.tier if d not in ("C05",) else "quick", self.seed)
             try:
-                dk = [k for k in donor.kernels() if k.native and (k.std or donor.std) == "c++14"]
+                # reference kernels (raw operators, pure std::chrono, libm) contain no Au code: their standard-dependence is the
+                # standard library's own (e.g. libstdc++ duration <= on NaN counts differs between C++17 and C++20) and is not donated
+                def is_reference(k):
+                    f = k.family.lower()
+                    return f.startswith("raw_") or f.startswith("ref_") or f.endswith("_ref") or "reference" in f
+                dk = [k for k in donor.kernels() if k.native and (k.std or donor.std) == "c++14" and not is_reference(k)]
                 dpre = donor.prelude
                 dinc = donor.includes
+                dopts = dict(donor.encode_opts or {})
+                dopts.setdefault("inline_depth", 12)
+                dopts.setdefault("unwind", 12)
             finally:
                 donor.cleanup()
             self.rng.shuffle(dk)
@@ -92,6 +100,7 @@ class C20(F.Check):
                     break
             for k in chosen:
                 base = copy.copy(k)
+                base.enc_opts = dopts
                 base.name = "%s__base" % k.name
                 base.prelude = dpre
                 base.key = dict(k.key or {}, donor=d, config="c++14 multi-header")
@@ -105,6 +114,7 @@ class C20(F.Check):
                     if var is not None and dpre and "au::" in dpre and False:
                         continue
                     v = copy.copy(k)
+                    v.enc_opts = dopts
                     v.name = "%s__%s" % (k.name, vid)
                     v.std = std
                     v.variant = var
@@ -193,7 +203,8 @@ class C20(F.Check):
                 if F.ct_is_float(ret):
                     fmt = F.FMT_OF[ret]
                     same = T.or_(same, T.and_(T.fp_isnan(fmt, a.ret), T.fp_isnan(fmt, b.ret)))
-                return T.TRUE, T.and_(T.eq(a.ub, b.ub), T.or_(a.ub, same), T.not_(T.or_(a.unwind, b.unwind)))
+                # paths beyond the unwinding / inlining bound are outside the claim (and counted): never a violation
+                return T.not_(T.or_(a.unwind, b.unwind)), T.and_(T.eq(a.ub, b.ub), T.or_(a.ub, same))
             fp = any(F.ct_is_float(ct) for ct, _ in base.args) or F.ct_is_float(base.ret)
             ob = F.Ob("equiv:%s" % v.name, xs, fn, key=key, kernels=[base.name, v.name],
                       routes=F.FP_ROUTES if fp else ["z3-bv", "cvc5-bvint", "z3-int"],
